@@ -292,6 +292,10 @@ func (tf tFiles) newIndexIterator(tops *tOps, icmp *iComparer, slice *util.Range
 		} else {
 			limit = tf.Len()
 		}
+		if limit < start {
+			// Inverted range (Start > Limit): nothing lies in it.
+			limit = start
+		}
 		tf = tf[start:limit]
 	}
 	return iterator.NewArrayIndexer(&tFilesArrayIndexer{
